@@ -126,6 +126,26 @@ CLAIMS = {
         note=NOTE + 'The soft-float arithmetic is validated, not proved; hex floats and over/underflow are refused as the code does.',
         technique='Lean 4 theorems on the converters + bit-exact differential check against CPython', design='7 C18'),
 }
+
+EXTRA = {
+ 'C01': 'Key-space refinement (FR.Props.C01k): every table command is a function of the clock and the live key space (refinement, history_refinement); full SET option decision table for both versions (set_table), '
+        'MGET/MSET/MSETNX all-or-nothing, INCR family incl. the refused INT64_MIN decrement, INCRBYFLOAT, DEL/UNLINK/EXISTS/TYPE/BITCOUNT, RENAME(NX) moves value and deadline, DUMP/RESTORE round trip and independent copy. ',
+ 'C02': 'Hashes as finite maps and sets as membership predicates (FR.Props.C02h: hset/hdel/hincrby/hincrbyfloat, sunion/sinter/sdiff and their STORE forms, smove, pfadd/pfcount/pfmerge, wrong-type refusals, invariants preserved); '
+        'SORT (FR.Props.C02s: option grammar, numeric_sort = the unique stable sorted permutation with ties by element, alpha_sort, limit_slice, by_nosort, by_weight, get_expansion, store, last_by_decides). ',
+ 'C03': 'ZUNIONSTORE/ZINTERSTORE functional specification (FR.Props.C03s: membership, score = fold of the aggregate over weight*score over sources sorted by cardinality with the NaN->0 rule where the code applies it, stored set satisfies the invariant, run_ok / run_error through the dispatcher, watchers notified). ',
+ 'C04': 'Chunking independence is now unconditional (FR.Props.C04s): bufIndependent proves that command processing neither reads nor writes the input buffer (all special commands, EXEC, scripts), hence sendall a; sendall b = sendall (a ++ b), sendChunks_flatten and chunking_irrelevant for every chunking of every byte stream while the connection is alive; aliveness_needed is the KF-1 witness. ',
+ 'C06': 'System level, every event and history (FR.Props.C06s): step_sound / request_sound (any change of the live entry of a watched key, by any command of any client incl. MOVE, SWAPDB, FLUSH*, SORT STORE, ZUNIONSTORE, blocking wake-ups, EXEC inner commands, scripts, sets the flag), sticky, quiet_keeps_watch, history_changed + exec_nil_after_change ("even if later changed back"), regular_flag_exact (only a notification of a watched key sets it); kernel-checked witnesses that the clock exclusion is necessary and that a state-wise reading fails for pipelined UNWATCH/SET/WATCH. ',
+ 'C07': 'Twin simulation over every event (FR.Props.C07s): twin_step, twin_history, expired_eq_deleted_forever - a state with an expired key and the state with that key deleted are indistinguishable by any history with a monotone clock (clock_backwards_resurrects shows the hypothesis is necessary). TTL rules (FR.Props.C07t): ttl_cases with the half-up rounding rule, EXPIRE family / PERSIST, SETEX / SET EX|PX / RESTORE, replacing commands clear (set_general, getset, mset, *STORE), in-place commands keep (inplace_general, inplace_commands_keep, pfmerge_keeps), RENAME / MOVE carry the deadline, inside_exec. ',
+ 'C08': 'Every command (FR.Props.C08s): error_reply_changes_nothing at processCommand level (databases purge-equal, subscription tables, scripts, every other connection identical; own connection only txFailed inside MULTI), each erring inner command of EXEC and each erring redis.call, wrongtype_request; the short-circuit on a missing first key is the one exception (wrongtype_masked_by_missing_key). ',
+ 'C11': 'Histories (FR.Props.C11s): no_lost_wakeup is an invariant of every reachable state over all commands; stored lists are never empty; wake_conserves / bpop_pass_conserves; a wake-up serves the first non-empty key with its head/tail element. ',
+ 'C13': 'All commands (FR.Props.C13s): request_frame (every command except SWAPDB/MOVE/FLUSHALL/EXEC/EVAL leaves every other database identical), exact effect of SWAPDB / MOVE / FLUSHALL / FLUSHDB, exec_frame, request_noninterference and history_independent_of_other_dbs, wake/timeout frames, tightness witnesses for each excluded command. ',
+ 'C15': 'Commands at system level (FR.Props.C15s): scan_iteration (following the cursors of SCAN through processCommand returns the sorted live keys filtered by MATCH and TYPE once each in scanCalls requests, database only purged), sscan/hscan/zscan_iteration, error and missing-key cases, interleaved_miss (documented) and interleaved_guarantee. ',
+}
+NOTE_FIX = {
+ 'C04': 'KF-1 is the only known way to kill a connection parser; the generator-based Python parser is tied by chunked sends. ',
+ 'C06': 'The inclusion notified <= key arguments is not proved per body (completeness is stated over the notified list). ',
+}
+
 PENDING = 'check under construction in this round'
 
 checks, na = [], []
@@ -135,8 +155,8 @@ for i in ids:
         checks.append({
             'property_id': i, 'quick_cmd': './check %s --tier quick' % i, 'thorough_cmd': './check %s --tier thorough' % i,
             'evidence_file': 'evidence/%s.json' % i, 'replay_cmd_template': './check %s --replay {path}' % i, 'engine': 'lean-fr',
-            'level_claimed': {'category': 'proof', 'text': c['text'], 'design_ref': 'DESIGN.md section ' + c['design']},
-            'level_note': c['note'], 'technique': c['technique']})
+            'level_claimed': {'category': 'proof', 'text': c['text'] + EXTRA.get(i, ''), 'design_ref': 'DESIGN.md section ' + c['design']},
+            'level_note': (NOTE + NOTE_FIX[i]) if i in NOTE_FIX else c['note'], 'technique': c['technique']})
     else:
         na.append({'property_id': i, 'reason': PENDING})
 m = {
